@@ -24,6 +24,8 @@ def stream(chk):
     for _ in range(chk.n(2500, 120000)):
         k = rng.choice([3, 4, 5, 6, 7, 8, 9, chk.n(10, 14)])
         t = gl.rand_nested(rng, k)
+        if rng.random() < 0.2:
+            t = gl.with_support(rng, t)      # inner nodes labelled with support values, labels may repeat
         pool = rng.choice([[1, 0], [1, 0, -1], [1, 1, 0, -1, -1], [1, 0, 0, 0, -1]])
         pat = [rng.choice(pool) for _ in range(k)]
         if 1 not in pat:
@@ -34,6 +36,8 @@ def stream(chk):
     for _ in range(chk.n(5000, 160000)):
         k = rng.choice([5, 6, 7, 8, 9, 10])
         t = gl.rand_nested(rng, k)
+        if rng.random() < 0.2:
+            t = gl.with_support(rng, t)      # inner nodes labelled with support values, labels may repeat
         pool = rng.choice([[1, 0], [1, 0, 0], [1, 1, 0], [1, 0, -1]])
         pat = [rng.choice(pool) for _ in range(k)]
         if 1 not in pat:
@@ -44,6 +48,8 @@ def stream(chk):
     for _ in range(chk.n(1200, 40000)):
         k = rng.choice([4, 5, 6, 7, 8, 9])
         t = gl.rand_nested(rng, k)
+        if rng.random() < 0.2:
+            t = gl.with_support(rng, t)      # inner nodes labelled with support values, labels may repeat
         pat = [rng.choice([1, 0, 0, 1, -1]) for _ in range(k)]
 
         def leaves(x):
@@ -88,6 +94,16 @@ def parse_model(out, names):
     def st(s):
         return [(inv[int(x.split(':')[0])], int(x.split(':')[1])) for x in s.split(',') if x]
     return st(a), [st(c) for c in b.split(';')]
+
+
+def own_lca(tree, names):
+    """lowest node whose leaves include all of `names` (the harness's own search over node objects, not the library's)"""
+    node = tree
+    while True:
+        nxt = [c for c in node.Children if names <= set(c.getTipNames())]
+        if not nxt:
+            return node
+        node = nxt[0]
 
 
 def has_all_missing_clade(tree, taxa, paps):
@@ -174,7 +190,7 @@ def run_get_gls(chk, want):
             elif wr < ow:
                 fails.append((i, 'weight %d below the enumeration minimum %d (scenario cannot be consistent)' % (wr, ow), None))
             pat = dict(zip(taxa, paps))
-            sub = tree.lowestCommonAncestor([x for x in taxa if pat[x] == 1]) if paps.count(1) > 1 else None
+            sub = own_lca(tree, set(x for x in taxa if pat[x] == 1)) if paps.count(1) > 1 else None
             if sub is not None and all(pat[x] == 1 for x in sub.getTipNames()) and list(r) != [(sub.Name, 1)]:
                 fails.append((i, 'all leaves under the common ancestor are present but the scenario is %r' % (r,), None))
     exact_bad, member_bad = res[ident] if ident is not None else res[min(res)]
@@ -241,6 +257,8 @@ def run_phybo_modes(chk):
         else:
             k = rng.choice([3, 4, 5, 6, 7, 8, 9])
             t = gl.rand_nested(rng, k)
+            if rng.random() < 0.2:
+                t = gl.with_support(rng, t)      # inner nodes labelled with support values, labels may repeat
             pool = rng.choice([[1, 0], [1, 0, -1], [1, 1, 0, -1]])
             pat = [rng.choice(pool) for _ in range(k)]
             if pat.count(1) < 2:
@@ -355,6 +373,8 @@ def run_phybo_wordlist(chk):
         for it in range(chk.n(10, 120)):
             k = rng.choice([4, 5, 6, 7])
             t = gl.rand_nested(rng, k)
+            if rng.random() < 0.2:
+                t = gl.with_support(rng, t)      # inner nodes labelled with support values, labels may repeat
             taxa = ['L%d' % i for i in range(k)]
             rows, cid = [], 0
             parts = []
